@@ -118,6 +118,10 @@ enum Kind {
 struct Case {
     cause: Cause,
     nc: usize,
+    /// children form a chain 0 <- 1 <- 2 … instead of a star under 0
+    chain: bool,
+    /// the actor the racing link / spawn_linked targets (0 = the exiting supervisor)
+    tgt: usize,
     kind: Kind,
     j: usize,
 }
@@ -125,15 +129,17 @@ struct Case {
 impl Case {
     fn text(&self) -> String {
         format!(
-            "race cause={} nc={} kind={} j={}",
+            "race cause={} nc={} shape={} tgt={} kind={} j={}",
             self.cause.name(),
             self.nc,
+            if self.chain { "chain" } else { "star" },
+            self.tgt,
             if self.kind == Kind::Link { "link" } else { "spawnl" },
             self.j
         )
     }
     fn parse(s: &str) -> Option<Case> {
-        let mut c = Case { cause: Cause::Stop, nc: 0, kind: Kind::Link, j: 0 };
+        let mut c = Case { cause: Cause::Stop, nc: 0, chain: false, tgt: 0, kind: Kind::Link, j: 0 };
         let mut it = s.split_whitespace();
         if it.next()? != "race" {
             return None;
@@ -143,6 +149,8 @@ impl Case {
             match k {
                 "cause" => c.cause = Cause::parse(v)?,
                 "nc" => c.nc = v.parse().ok()?,
+                "shape" => c.chain = v == "chain",
+                "tgt" => c.tgt = v.parse().ok()?,
                 "kind" => c.kind = if v == "link" { Kind::Link } else { Kind::SpawnL },
                 "j" => c.j = v.parse().ok()?,
                 _ => {}
@@ -163,7 +171,7 @@ struct Setup {
 }
 
 /// Thread A: the runtime in which the supervisor and its children live.
-fn thread_a(nc: usize, with_orphan: bool, tx: Sender<Setup>, rx: Receiver<Cmd>, done: Sender<()>) {
+fn thread_a(nc: usize, chain: bool, with_orphan: bool, tx: Sender<Setup>, rx: Receiver<Cmd>, done: Sender<()>) {
     let rt = tokio::runtime::Builder::new_current_thread().enable_all().build().unwrap();
     let mut handles: Vec<JoinHandle<()>> = Vec::new();
     let mut cells = Vec::new();
@@ -171,8 +179,9 @@ fn thread_a(nc: usize, with_orphan: bool, tx: Sender<Setup>, rx: Receiver<Cmd>, 
         let (p, h) = Actor::spawn(None, Node(shared()), ()).await.unwrap();
         handles.push(h);
         cells.push(p.get_cell());
-        for _ in 0..nc {
-            let (c, h) = Actor::spawn_linked(None, Node(shared()), (), p.get_cell()).await.unwrap();
+        for i in 0..nc {
+            let sup = if chain { cells[i].clone() } else { p.get_cell() };
+            let (c, h) = Actor::spawn_linked(None, Node(shared()), (), sup).await.unwrap();
             handles.push(h);
             cells.push(c.get_cell());
         }
@@ -242,8 +251,8 @@ fn run_case(c: &Case) -> Option<String> {
     let (tx_setup, rx_setup) = channel();
     let (tx_cmd, rx_cmd) = channel();
     let (tx_done, rx_done) = channel();
-    let (nc, with_orphan) = (c.nc, c.kind == Kind::Link);
-    let ta = std::thread::spawn(move || thread_a(nc, with_orphan, tx_setup, rx_cmd, tx_done));
+    let (nc, chain, with_orphan) = (c.nc, c.chain, c.kind == Kind::Link);
+    let ta = std::thread::spawn(move || thread_a(nc, chain, with_orphan, tx_setup, rx_cmd, tx_done));
     let setup = rx_setup.recv().unwrap();
     let mut cells = setup.cells.clone();
     let ctl_a = ThreadCtl::new();
@@ -251,7 +260,7 @@ fn run_case(c: &Case) -> Option<String> {
     tx_cmd.send(Cmd::Exit(c.cause, ctl_a.clone())).unwrap();
 
     // thread B: the linker
-    let p_cell = cells[0].clone();
+    let p_cell = cells[c.tgt.min(c.nc)].clone();
     let kind = c.kind;
     let orphan = if kind == Kind::Link { Some(cells[nc + 1].clone()) } else { None };
     let ctl_b2 = ctl_b.clone();
@@ -377,15 +386,20 @@ fn main() {
         }
     }
     if args.u64("only-replay", 0) != 1 {
+        // shapes: (children, chain?, link target)
+        // (the order in which `terminate` visits *siblings* is the HashMap's and not observable in the
+        // middle of the exit, so targets inside the subtree are only used where they have no sibling)
+        let shapes: [(usize, bool, usize); 6] =
+            [(0, false, 0), (1, false, 0), (2, false, 0), (1, false, 1), (2, true, 1), (2, true, 2)];
         for cause in Cause::ALL {
-            for nc in 0..=2usize {
+            for (nc, chain, tgt) in shapes {
                 for kind in [Kind::Link, Kind::SpawnL] {
                     // exhaustive prefix of positions, then random deeper positions
                     for j in 0..=prefix {
-                        cases.push(Case { cause, nc, kind, j });
+                        cases.push(Case { cause, nc, chain, tgt, kind, j });
                     }
                     for _ in 0..extra {
-                        cases.push(Case { cause, nc, kind, j: rng.range(prefix as u64 + 1, 70) as usize });
+                        cases.push(Case { cause, nc, chain, tgt, kind, j: rng.range(prefix as u64 + 1, 70) as usize });
                     }
                 }
             }
